@@ -38,6 +38,9 @@
 (* \u, \a\b\f\r\t\v need letters/digits that are not representatives),     *)
 (* regular-expression syntax beyond literals, escapes and {n,m} (RegexOK), *)
 (* Unicode-only white space (NBSP...: the harness probes it directly).     *)
+(* The MEANING of a matcher ('=~' as the fully anchored regular            *)
+(* expression, '.' without the line feed, missing label = "") is           *)
+(* MatchersSem.tla; both are combined in mc/MC_Matchers.tla.               *)
 (***************************************************************************)
 EXTENDS Integers, Sequences, FiniteSets, TLC
 
